@@ -153,6 +153,8 @@ Lemma eval_SSel : forall a nk name asrt st,
            | VMap m => Ok (match assoc name m with Some x => (if is_null x then VNull else x) | None => VNull end)
            | VTime _ => Panic
            | VOpaque _ => Unk
+           | VStruct _ fs =>
+             match assoc name fs with Some x => Ok (if is_null x then VNull else x) | None => Panic end
            | _ => Ok VNull
            end, st1)
       | x => x
@@ -243,10 +245,10 @@ Proof.
 Qed.
 
 Lemma format_input_normalised : forall v, normalised (format_input v) = true.
-Proof. intros v. destruct v as [| | | | | | | | |k n| | | |]; try reflexivity. destruct k; reflexivity. Qed.
+Proof. intros v. destruct v as [| | | | | | | | |k n| | | | |]; try reflexivity. destruct k; reflexivity. Qed.
 
 Lemma format_input_id : forall v, normalised v = true -> format_input v = v.
-Proof. intros v H. destruct v as [| | | | | | | | |k n| | | |]; try reflexivity; try discriminate. destruct k; try reflexivity; discriminate. Qed.
+Proof. intros v H. destruct v as [| | | | | | | | |k n| | | | |]; try reflexivity; try discriminate. destruct k; try reflexivity; discriminate. Qed.
 
 Lemma eval_result_normalised : forall hosts off e st v st',
   eval hosts off e st = (Ok v, st') -> normalised v = true.
